@@ -67,10 +67,23 @@ def check(ctx, rule: str = "CAP-1"):
         raise AnalysisError(f"{q}: expected one scan generating the powers, found {len(scans)}")
     f, init, xs, length = match_scan(scans[0])
     ar = m_arrcall(strip_wrappers(xs), "arange")
-    if ar is None or not (1 <= len(ar) <= 2):
-        raise AnalysisError(f"{q}: scan range is not arange(...)")
-    lo, hi = (const(0), ar[0]) if len(ar) == 1 else (ar[0], ar[1])
-    n_out = mk("binop", "-", hi, lo)
+    xs0 = strip_wrappers(xs)
+    if (xs0.op == "const" and xs0.args[0] is None) and length is not None and not (
+            strip_wrappers(length).op == "const" and strip_wrappers(length).args[0] is None):
+        # lax.scan(f, init, None, length=n): n outputs; max(n, 0) is n for the counts that occur
+        ln_ = strip_wrappers(length)
+        if ln_.op == "call" and (func_name(ln_) or "").split(".")[-1] in ("max", "maximum") and len(call_parts(ln_)[1]) == 2 \
+                and any(a_.op == "const" and a_.args[0] == 0 for a_ in call_parts(ln_)[1]):
+            ln_ = [a_ for a_ in call_parts(ln_)[1] if not (a_.op == "const" and a_.args[0] == 0)][0]
+        lo, hi = const(0), ln_
+        n_out = ln_
+    elif ar is None or not (1 <= len(ar) <= 2):
+        ctx.rep.note(f"{q}: the scan that generates the powers runs over neither arange(..) nor length=..; the series "
+                     f"rules (CAP-1) do not apply")
+        return
+    else:
+        lo, hi = (const(0), ar[0]) if len(ar) == 1 else (ar[0], ar[1])
+        n_out = mk("binop", "-", hi, lo)
     C, x = sym("§carry"), sym("§x")
     body = ev.open_closure(f, [C, x])
     ok_body = False
